@@ -58,7 +58,8 @@ def run(ctx):
     pick_c = []
     for k in sorted({(c["kind"], c["ty"]) for c in conf}):
         pool = [c for c in conf if (c["kind"], c["ty"]) == k and (thorough or c["n"] <= 11) and c["nc"] < 257]
-        pick_c += rnd.sample(pool, 6 if thorough else 2)
+        # one fresh and one already-used sampler of every kind / precision
+        pick_c += rnd.sample([c for c in pool if not c["pre"]], 3 if thorough else 1) + rnd.sample([c for c in pool if c["pre"]], 3 if thorough else 1)
     pick_c += [c for c in conf if c["nc"] >= 257]      # the large runs, every time
     pick_c += [c for c in conf if c["n"] == 48 and c["kind"] in ("MH", "Gibbs") and c["ty"] == "f64" and c["nc"] == 4 and c["nd"] == 0]
     slowf = [c for c in faults if c["slow"] and c["drop_at"] <= c["nc"] + c["nd"] - 3]   # >= 3 slow transitions after the drop: a periodic send fails
@@ -75,7 +76,7 @@ def run(ctx):
             if not res["why"]:
                 traces.append((c, res["events"]))
         elif mode == "config":
-            key = "progress-config %s %s" % (c["kind"], c["ty"])
+            key = "progress-config %s %s%s" % (c["kind"], c["ty"], " (used sampler)" if c.get("pre") else "")
         else:
             key = "progress-fault drop_at=%d nc=%d nd=%d%s" % (c["drop_at"], c["nc"], c["nd"], " slow" if c["slow"] else "")
         for w in res["why"]:
